@@ -8,6 +8,12 @@ BASE = ("go/types + go/ssa (x/tools v0.29.0) faithful IR; stdlib contracts as do
         "(DESIGN.md section 3); caller-supplied io.Reader/io.Writer obey their contracts")
 
 CHECKS = {
+ "C06": dict(level="proof", ref="§4 C06",
+   text="Reader-use discipline on ReadPacket's call tree decided from SSA: the reader is only read through full-read primitives, header reads use 1-byte buffers, the body buffer's length is (without arithmetic) the cell written only by the streaming length reader on the same header object, the length loop consumes one byte per iteration with a data-dependent successful exit, and every exit of the body stage lies behind the completed body read or on the length==0 edge. Hence exactly 1+k+remaining bytes are requested on success and on content rejection. Proof modulo io contracts; the numeric agreement of length value and bytes consumed is C15's.",
+   technique="static analysis: SSA reader-use enumeration, value-identity of the buffer size, dominance / must-pass-through on the CFG"),
+ "C08": dict(level="proof", ref="§4 C08",
+   text="For every read site the error value is followed through dominance by its own nil-tests and through resolved call sites up to ReadPacket: each exit reachable after a read is behind `err == nil` or returns the error by identity / constant-format %w with a nil packet; buffer content is used only behind the nil edge. With full reads this gives: packet only if all bytes arrived, errors.Is(err, E) for reader failures, io.EOF at a frame boundary. Proof modulo io.ReadFull and fmt.Errorf %w contracts.",
+   technique="static analysis: error-value flow on SSA (checked-before-use, result-flow, %w format parsing) across the call graph"),
  "C07": dict(level="proof", ref="§4 C07",
    text="Every use of an io.Reader value in package mq is enumerated from the SSA form and must be a full-read primitive (io.ReadFull / io.ReadAtLeast(len)) or a hand-over to an mq function under the same rule. With full reads only the decoded bytes cannot depend on chunking, zero-length reads or (n, io.EOF). Proof modulo the io.ReadFull contract.",
    technique="static analysis: SSA use-enumeration of reader values (who-may-call / typestate rule)"),
